@@ -159,6 +159,16 @@ INDEX_FILES = ("version_index.sqlite", "version_index.sqlite-journal", "version_
                "version_index.sqlite-shm")
 
 
+def _decode_record(path):
+    """args.json / options.json of a version directory, decoded (strict UTF-8 JSON) or a marker."""
+    import json
+    try:
+        with open(path, "rb") as f:
+            return json.loads(f.read().decode("utf-8"))
+    except Exception as e:  # noqa: BLE001
+        return "<undecodable: %s>" % type(e).__name__
+
+
 def project_store(root):
     """Abstract Store state of a project: index rows, version directories at task positions (with digests),
     plain task dirs, staging leftovers, everything else."""
@@ -184,7 +194,9 @@ def project_store(root):
             if m:
                 vdirs[r] = {"task": "//%s:%s" % (rel, m.group("name")), "ts": int(m.group("ts")),
                             "digest": subtree_digest(tree, r),
-                            "files": sorted(k[len(r) + 1:] for k in tree if k.startswith(r + "/"))}
+                            "files": sorted(k[len(r) + 1:] for k in tree if k.startswith(r + "/")),
+                            "records": {nm: _decode_record(os.path.join(out, r, nm)) for nm in ("args.json", "options.json")
+                                        if os.path.isfile(os.path.join(out, r, nm))}}
                 continue
             if TDIR.match(nme):
                 tdirs[r] = {"digest": subtree_digest(tree, r)}
